@@ -34,7 +34,7 @@ def main(tier, seed):
                 stats["programs"] += 1
     run.notes["budget_sweep"] = stats
     if stats["nested_exec_events"] < 50 or stats["timeouts"] < 50:
-        raise ToolError("the corpus does not exercise nested execution / timeouts enough: %s" % stats)
+        run.thin_corpus("the corpus does not exercise nested execution / timeouts enough: %s" % stats)
     validate_traces(run, "VmBudgetTrace.tla", dict(MaxBudget="1", MaxDepth="1"), ["Inv"], files, "budget-trace", timeout=1800,
                     site_of=lambda m: str(m.get("event", {}).get("e")))
     run.evaluations += stats["runs"]
